@@ -408,6 +408,21 @@ fn string_from_utf8''')]},
     {'name': 'T5 new recursive helper in the scanner', 'prop': 'C03', 'expect': 'T5 / cycle: skip_nested_comment',
      'edits': [(SCAN, "    fn binary_token(&mut self,", "    fn skip_nested_comment(&mut self) {\n        while !self.is_at_end() {\n            let c = self.advance().to_owned();\n            if c == \"{\" {\n                self.skip_nested_comment();\n            } else if c == \"}\" {\n                return;\n            }\n        }\n    }\n\n    fn binary_token(&mut self,"),
                (SCAN, "                \"\\r\" => {\n                    self.advance();\n                }", "                \"\\r\" => {\n                    self.advance();\n                }\n                \"`\" => {\n                    self.skip_nested_comment();\n                }")]},
+    # ---- C05 ----------------------------------------------------------------------------------------
+    {'name': 'E1 *= compiles to a division', 'prop': 'C05', 'expect': 'E1 / StarEqual',
+     'edits': [(COMP, "            TokenKind::StarEqual => self.emit_byte(OpCode::Multiply as u8),", "            TokenKind::StarEqual => self.emit_byte(OpCode::Divide as u8),")]},
+    {'name': 'E1 scanner pairs ^ with |=', 'prop': 'C05', 'expect': 'E1 / scanner pairs Caret',
+     'edits': [(SCAN, "self.binary_token(TokenKind::Caret, TokenKind::CaretEqual)", "self.binary_token(TokenKind::Caret, TokenKind::BarEqual)")]},
+    {'name': 'E2 binary operands applied in popped order', 'prop': 'C05', 'expect': 'E2 / binary_op_impl',
+     'edits': [(VM, "        let second_value = self.pop();\n        let first_value = self.pop();", "        let first_value = self.pop();\n        let second_value = self.pop();")]},
+    {'name': 'E2 range bounds swapped', 'prop': 'C05', 'expect': 'E2 / build_range_impl',
+     'edits': [(VM, "        let range = self.build_range(begin, end);\n        self.push(Value::ObjRange(range));", "        let range = self.build_range(end, begin);\n        self.push(Value::ObjRange(range));")]},
+    {'name': 'E2 string concatenation reversed', 'prop': 'C05', 'expect': 'E2 / add_impl',
+     'edits': [(VM, 'format!("{}{}", *a, *b).as_str()', 'format!("{}{}", *b, *a).as_str()')]},
+    {'name': 'E3 continue jumps to the outermost loop', 'prop': 'C05', 'expect': 'E3 / current_loop_header reads loop_stack.last()',
+     'edits': [(COMP, "        self.loop_stack.last().copied()", "        self.loop_stack.first().copied()")]},
+    {'name': 'E3 while loops back to after the condition', 'prop': 'C05', 'expect': 'E3 / while_statement',
+     'edits': [(COMP, "        self.compiler_mut().push_loop();\n        let loop_start = self.chunk().code.len();\n\n        self.expression();", "        self.compiler_mut().push_loop();\n\n        self.expression();\n        let loop_start = self.chunk().code.len();")]},
 ]
 
 BENIGN = [
